@@ -4,31 +4,62 @@ PROP = dict(
     title="Unreachable memory is reclaimed and a dropped runtime frees everything",
     lean_module="AbraProofs.Properties.C07",
     required_theorems=["C07_cycle_complete", "C07_quiet_cycle_leaves_only_reachable", "C07_collector_progress",
-                       "C07_quiet_cycle_terminates", "C07_drop_frees_all"],
+                       "C07_quiet_cycle_terminates", "C07_drop_frees_all",
+                       "C07_debt_covers_heap", "C07_increment_covers_heap", "C07_cycle_spans_k_steps",
+                       "C07_quiet_cycle_three_steps", "C07_bounded_heap", "C07_bounded_heap_hits", "C07_bounded_heap_from",
+                       "C07_reach_count_le_bytes", "C07_checked_pacing_step"],
     harness_bin="c07",
     mismatch_is_violation=False,
     rule="(A) generated allocation-heavy programs (quick 24 / thorough 120) run with the collector driven by hand so that "
          "cycle follows cycle (k = 1..4 increments per VM step, random bursts in thorough): every transition is one case "
          "(collector increment = model gcStep; VM step inside the mutator contract), and on every completed cycle the "
          "executable form of C07_cycle_complete is checked (heap at cycle end within reachable-at-start plus allocated-since); "
-         "(B) six loop programs with bounded live data run under the real pacing for N and 10N iterations with the peak heap "
-         "read after every step: the peak must not grow with N; (C) eight programs (string constants, arrays, structs, "
+         "(B) eight loop programs with bounded live data run under the real pacing for N and 10N iterations with the peak heap "
+         "read after every step: the peak must not grow with N; (D) the pacing model M5p against the REAL pacing: the eight loop "
+         "programs, nested-pop programs (cycles of 5 and 6 calls), a static-string store program, a consumer thread that keeps "
+         "receiving messages of many small objects (one ChannelRead allocates a whole message: 40 tuples with every step "
+         "validated, 4000 tuples = 256 KB per instruction with the oracles only), generated and mover programs "
+         "run with the harness calling the real maybe_gc of the main green thread once before every instruction (and, in some "
+         "runs, only every k-th instruction while marking): every call is one case (model maybeGc maps the before-snapshot with sizes and counters to "
+         "the after-snapshot; `gcp idle` when an idle call changes nothing), every instruction and host call that changes the "
+         "collector-visible state is one case (pacing contract pmutatorOKb + accounting), and the executable conclusions of the "
+         "pacing theorems are oracles on the implementation: heap_size = recount <= gc_debt, a marking increment drains the gray "
+         "stack, a sweeping increment ends the cycle with last_gc_heap_size = heap_size, a cycle spans at most reachCount+3 calls, "
+         "and at every step heap_size <= 2R + (3M+9)A with R (reachable bytes when a cycle starts), A (bytes allocated between two "
+         "calls) and M (marking increments of one cycle that found an unmarked root) as observed on the run so far "
+         "(C07_bounded_heap_hits; also the weaker bound with N reachable objects, C07_bounded_heap); (C) eight programs (string constants, arrays, structs, "
          "closures, tasks finished and unfinished, a runtime error) go through repeated compile/Runtime::new/run/drop rounds "
          "under a counting global allocator: live bytes must not grow. distinct = distinct request lines; non-trivial = "
          "collector not idle in the before-state",
     nontrivial=lambda req, imp: " phase=i " not in req[:20],
     trusted_base=COMMON_TB + [
-        "hook abra_core::vm::verif_gc (snapshot, manual stepping, heap statistics)",
+        "hook abra_core::vm::verif_gc (snapshot, manual stepping, heap statistics, pacing counters and object sizes)",
+        "pacing model M5p: usize arithmetic is modelled in Nat (no overflow of heap_size, gc_debt, 2*gc_debt, 2*last_gc_heap_size); "
+        "the budget consumed by static strings that the write barrier pushed on the gray stack is an input (`leak`) of a marking "
+        "increment, deducted up front (exact unless such an entry exhausts the slice), and the theorems assume it leaves the slice "
+        "above heap_size (always true when no such entry is on the stack)",
+        "the hypotheses of C07_bounded_heap are premises about the program (reachable bytes <= R and objects <= N at every call of "
+        "maybe_gc, at most A bytes allocated between two calls) and the mutator contract; on real runs they are measured, not proved",
         "the counting global allocator of the harness; Rust's Vec/Box/Arc ownership (a dropped owner frees its allocation)",
         "the Drop ledger model states the ownership structure (each thread owns its heap_list, the shared part owns the static strings); that the Rust Drop impls implement it is checked by the allocator oracle only",
     ],
-    assumptions=["the quantitative bound of heap size under the real pacing (slice = 2*debt) is checked by oracle (B), not proved",
-                 "progress is proved for collector increments (measure mu); that the real pacing gives the collector enough increments relative to allocation is checked by oracle (B)"],
+    assumptions=["the heap bound is a theorem about the pacing model (one green thread; maybe_gc once before every instruction); that vm.rs "
+                 "implements that model is validated per call and per instruction on real executions (D), not proved",
+                 "real cycles take 3 calls of maybe_gc unless the program pops nested containers in consecutive instructions right after "
+                 "a cycle starts (then one more call per level, observed: 5 and 6): C07_bounded_heap charges N+3 calls to every cycle "
+                 "(N reachable objects, always sound), C07_bounded_heap_hits M+3 calls under the hypothesis that at most M increments per "
+                 "cycle find an unmarked root (measured on real runs)"],
     design_ref="DESIGN.md §6 C07",
     level_text="Theorem over all interleavings within a collection cycle: whatever is still allocated when the collector returns to idle "
                "was reachable when the cycle started or allocated during it (so unreachable objects are reclaimed by the cycle, floating "
-               "garbage by the next); every collector increment of a running cycle strictly decreases a work measure, so a quiet cycle ends within mu increments; a ledger statement for Drop. Tied to vm.rs by per-transition validation of real executions, a peak-heap "
+               "garbage by the next); every collector increment of a running cycle strictly decreases a work measure, so a quiet cycle ends within mu increments; the pacing (M5p: object sizes, heap_size, last_gc_heap_size, gc_debt): gc_debt >= heap_size is an invariant, hence one marking "
+               "increment (slice 2*debt) empties the gray stack and one sweeping increment finishes the sweep, a cycle is over after at most reachCount+3 calls of maybe_gc "
+               "(3 when no unmarked root appears), and for every run with reachable data <= R bytes / N objects whenever a cycle starts and <= A bytes allocated per step, heap_size <= 2R + (3N+9)A at every "
+               "point (C07_bounded_heap), and <= 2R + (3M+9)A when at most M marking increments per cycle find an unmarked root (C07_bounded_heap_hits; M = 0 unless the program pops nested containers in consecutive instructions); a ledger statement for Drop. Tied to vm.rs by per-transition validation of real executions, a peak-heap "
                "oracle under the real pacing and a counting-allocator oracle for create/run/drop.",
-    level_note="Bounded-heap arithmetic of the pacing and the Rust Drop implementations are covered by oracles, not theorems.",
-    technique="Lean 4 ghost-set invariant proof over the mark/sweep state machine + trace validation, peak-heap and counting-allocator oracles",
+    level_note="The pacing arithmetic and the heap bound are theorems about model M5p, validated against the real maybe_gc call by call; "
+               "the Rust Drop implementations are covered by an oracle, not a theorem. Multi-threaded programs: each green thread has its "
+               "own collector and counters (the theorem is per thread); the pacing validation runs single-threaded programs.",
+    technique="Lean 4 ghost-set invariant proof over the mark/sweep state machine, potential-function proof of the pacing (debt covers heap, "
+              "run invariant linking heap_size, last_gc_heap_size, phase and step count) + trace validation against the real pacing, peak-heap and counting-allocator oracles",
 )
